@@ -319,8 +319,9 @@ func (e *Exec) execUnOp(f *frame, st *State, x *ssa.UnOp) {
 	case token.SUB:
 		e.bind(f, x, Val{T: app("-", v.T), Ty: v.Ty})
 	case token.ARROW:
-		e.abstracted(f, "channel receive")
-		e.havocAll(st, e.isGhostName)
+		// A-SEQ: what other goroutines do while this one waits is not modelled (no interleaving
+		// below call granularity); the received value is arbitrary
+		e.abstracted(f, "channel receive (value arbitrary; effects of other goroutines while blocked not modelled, A-SEQ)")
 		f.vals[x] = e.freshVal(st, f.prefix+x.Name(), x.Type())
 	case token.XOR:
 		f.vals[x] = e.freshVal(st, f.prefix+x.Name(), x.Type())
